@@ -1413,23 +1413,6 @@ Proof.
     apply (inv_pd (length pts) (@cov_matrix ROps eps kern pts) K HK HPD Hinv'); auto.
 Qed.
 
-(* ------------------------------------------------------------------ rectangular meshes: finite sweep *)
-Lemma rect_sweep_10 : forallb rect_shape_ok (shapes 2 10) = true.
-Proof. vm_compute. reflexivity. Qed.
-Lemma T_rect_upto_10 H W : (2 <= H <= 10)%nat -> (2 <= W <= 10)%nat ->
-  rect_neighbors H W = map (map Z.of_nat) (grid_rows H W) /\ nb_ok (grid_rows H W) = true.
-Proof.
-  intros HH HW. pose proof rect_sweep_10 as S. rewrite forallb_forall in S.
-  assert (I : In (H, W) (shapes 2 10)).
-  { unfold shapes. apply in_flat_map. exists H. split; [apply in_seq; lia|]. apply in_map_iff. exists W. split; [reflexivity|apply in_seq; lia]. }
-  specialize (S _ I). unfold rect_shape_ok in S. cbn [fst snd] in S. apply andb_true_iff in S. destruct S as [S1 S2]. split; [|exact S2].
-  clear -S1. revert S1. generalize (map (map Z.of_nat) (grid_rows H W)). generalize (rect_neighbors H W).
-  induction l as [|r l IH]; intros [|r' l'] E; cbn in E; try discriminate; auto.
-  apply andb_true_iff in E. destruct E as [E1 E2]. f_equal; [|apply IH, E2].
-  clear -E1. revert r' E1. induction r as [|a r IH]; intros [|a' r'] E; cbn in E; try discriminate; auto.
-  apply andb_true_iff in E. destruct E as [E1 E2]. apply Z.eqb_eq in E1. f_equal; auto.
-Qed.
-
 (* ------------------------------------------------------------------ regularization_matrix_reduced *)
 Definition del {A} (s : nat) (l : list A) (idx : list nat) : list A :=
   map snd (filter (fun ia : nat * A => negb (existsb (Nat.eqb (fst ia)) idx)) (combine (seq s (length l)) l)).
